@@ -51,6 +51,8 @@ def main():
             R.inconc("worker %s: %s" % (job.get("seed"), err))
             continue
         R.merge(res)
+    from vf import lazyimport
+    lazyimport.run_family(R, ['hash'], label="C20")
     R.assumptions = ["the reference uses the parameter tables of pysnark/poseidon_constants.py; the two published vectors (x5_254_5, x5_255_5 on [0,1,2,3,4]) "
                      "tie those tables to the published instances for bn254 and bls12-381; no published vector is available here for the 25519 set"]
     req = ["sponge_outputs_compared", "permutation_outputs_compared", "published_vectors_checked", "subset_sum_compared", "padded_forms_observed",
